@@ -316,7 +316,8 @@ enum { // must match DirectFn in ops_ext.inc
         D_GCM_ONESHOT = 1, D_GCM_IUF, D_GMAC_IUF, D_GHASH, D_SHA_ONESHOT, D_CRC, D_ZUC_EEA3_1, D_ZUC_EEA3_4, D_ZUC_EEA3_N,
         D_ZUC_EIA3_1, D_ZUC_EIA3_N, D_SNOW3G_F8_1, D_SNOW3G_F8_1_BIT, D_SNOW3G_F8_2, D_SNOW3G_F8_4, D_SNOW3G_F8_8, D_SNOW3G_F8_N,
         D_SNOW3G_F8_8_MK, D_SNOW3G_F8_N_MK, D_SNOW3G_F9_1, D_KASUMI_F8_1, D_KASUMI_F8_1_BIT, D_KASUMI_F8_2, D_KASUMI_F8_3,
-        D_KASUMI_F8_4, D_KASUMI_F8_N, D_KASUMI_F9_1, D_CHACHAPOLY_IUF, D_NFN
+        D_KASUMI_F8_4, D_KASUMI_F8_N, D_KASUMI_F9_1, D_CHACHAPOLY_IUF, D_QUIC_GCM, D_QUIC_CHACHAPOLY, D_QUIC_HP_AES, D_QUIC_HP_CHACHA,
+        D_CFB_ONE, D_SHA_ONE_BLOCK, D_NFN
 };
 uint32_t
 burst_size(Rng &r)
@@ -476,12 +477,47 @@ gen_plan_entry(const ProfileCfg &pc, uint64_t run_seed)
                                 break;
                         case D_KASUMI_F9_1: s.hash = IMB_AUTH_KASUMI_UIA1; s.order = IMB_ORDER_HASH_CIPHER; break;
                         case D_CHACHAPOLY_IUF:
+                        case D_QUIC_CHACHAPOLY:
                                 s.cipher = IMB_CIPHER_CHACHA20_POLY1305;
                                 s.hash = IMB_AUTH_CHACHA20_POLY1305;
                                 s.key_len = 32;
                                 s.dir = r.chance(0.5) ? IMB_DIR_ENCRYPT : IMB_DIR_DECRYPT;
                                 s.order = s.dir == IMB_DIR_ENCRYPT ? IMB_ORDER_CIPHER_HASH : IMB_ORDER_HASH_CIPHER;
+                                if (op.a == D_QUIC_CHACHAPOLY)
+                                        n = r.range(1, 40);
                                 break;
+                        case D_QUIC_GCM:
+                                s.cipher = IMB_CIPHER_GCM;
+                                s.hash = IMB_AUTH_AES_GMAC;
+                                s.key_len = r.chance(0.5) ? 16 : 32; // QUIC uses AES-128 and AES-256
+                                s.dir = r.chance(0.5) ? IMB_DIR_ENCRYPT : IMB_DIR_DECRYPT;
+                                s.order = s.dir == IMB_DIR_ENCRYPT ? IMB_ORDER_CIPHER_HASH : IMB_ORDER_HASH_CIPHER;
+                                n = r.range(1, 40);
+                                break;
+                        case D_QUIC_HP_AES:
+                                s.cipher = IMB_CIPHER_ECB;
+                                s.key_len = r.chance(0.5) ? 16 : 32;
+                                s.dir = IMB_DIR_ENCRYPT;
+                                n = r.range(1, 40);
+                                break;
+                        case D_QUIC_HP_CHACHA:
+                                s.cipher = IMB_CIPHER_CHACHA20;
+                                s.key_len = 32;
+                                s.dir = IMB_DIR_ENCRYPT;
+                                n = r.range(1, 40);
+                                break;
+                        case D_CFB_ONE:
+                                s.cipher = IMB_CIPHER_CFB;
+                                s.key_len = r.chance(0.5) ? 16 : 32;
+                                s.dir = r.chance(0.5) ? IMB_DIR_ENCRYPT : IMB_DIR_DECRYPT;
+                                break;
+                        case D_SHA_ONE_BLOCK: {
+                                static const int g[] = { IMB_AUTH_SHA_1,   IMB_AUTH_SHA_224, IMB_AUTH_SHA_256,
+                                                         IMB_AUTH_SHA_384, IMB_AUTH_SHA_512, IMB_AUTH_MD5 };
+                                s.hash = (uint8_t) g[r.below(6)];
+                                s.order = IMB_ORDER_HASH_CIPHER;
+                                break;
+                        }
                         }
                         GenOpts g2 = go;
                         if (op.a == D_SNOW3G_F8_1_BIT || op.a == D_KASUMI_F8_1_BIT)
@@ -498,6 +534,31 @@ gen_plan_entry(const ProfileCfg &pc, uint64_t run_seed)
                                         j.c_len |= 1; // the bit-granular entry point: offset applies to source and destination
                                 if (op.a == D_GCM_ONESHOT)
                                         j.iv_len = 12;
+                                if (op.a == D_QUIC_GCM || op.a == D_QUIC_CHACHAPOLY) {
+                                        // one key, AAD length and tag length per batch; 12-byte IVs
+                                        j.iv_len = 12;
+                                        j.c_off = j.h_off = 0;
+                                        if (op.a == D_QUIC_CHACHAPOLY)
+                                                j.tag_len = 16;
+                                        if (k > 0) {
+                                                j.aad_len = op.jobs[0].aad_len;
+                                                j.tag_len = op.jobs[0].tag_len;
+                                        }
+                                }
+                                if (op.a == D_QUIC_HP_AES || op.a == D_QUIC_HP_CHACHA) {
+                                        j.c_off = 0;
+                                        j.c_len = 16;
+                                        j.inplace = 0;
+                                }
+                                if (op.a == D_CFB_ONE) {
+                                        j.c_off = 0;
+                                        j.c_len = 1 + (uint32_t) (j.seed % 16);
+                                        j.iv_len = 16;
+                                }
+                                if (op.a == D_SHA_ONE_BLOCK) {
+                                        j.h_off = 0;
+                                        j.h_len = 128;
+                                }
                                 if (k > 0 && same_key)
                                         j.key_seed = op.jobs[0].key_seed;
                                 if (k > 0 && same_len)
